@@ -51,7 +51,7 @@ def sensor_props(rnd, i, kind, src):
     return out
 
 
-def draw_graph(rnd, n=None, types=STRUCTURAL, with_noop=False, with_number=None, first_scales_daqmx=0):
+def draw_graph(rnd, n=None, types=STRUCTURAL, with_noop=False, with_number=None, first_scales_daqmx=0, forward=False):
     """returns (props list, graph description) ; graph[i] = (type, params...) for the Python-side oracle"""
     n = n or rnd.randint(1, 5)
     props, graph = [], []
@@ -117,12 +117,47 @@ def draw_graph(rnd, n=None, types=STRUCTURAL, with_noop=False, with_number=None,
             props[-1] = P_str(pre + "_Scale_Type", t)
             props += sensor_props(rnd, i, t, s)
             graph.append(("sensor", t, s))
+    if forward and first_scales_daqmx == 0 and n >= 3:
+        props, graph = permute_indices(rnd, props, graph)
     if with_number is None:
         with_number = rnd.random() < 0.6
     if with_number or first_scales_daqmx:
         props.insert(0, P_u32("NI_Number_Of_Scales", total))
     rnd.shuffle(props)
     return props, graph
+
+
+SOURCE_POS = {"linear": [3], "polynomial": [2], "table": [3], "add": [1, 2], "subtract": [1, 2], "noop": [1], "sensor": [2]}
+
+
+def permute_indices(rnd, props, graph):
+    """the same dataflow graph with the scale indices below the last one permuted: a scale may then take its input from a scale
+    with a HIGHER index (still acyclic; the output stays the scale with the highest index)"""
+    import re
+    n = len(graph)
+    order = list(range(n - 1))
+    rnd.shuffle(order)
+    perm = {old: new for new, old in enumerate(order)}
+    perm[n - 1] = n - 1
+    out_props = []
+    for name, ty, val in props:
+        nm = name.decode()
+        m = re.match(r"NI_Scale\[(\d+)\](.*)$", nm)
+        if m:
+            nm = "NI_Scale[%d]%s" % (perm[int(m.group(1))], m.group(2))
+            if nm.endswith("Input_Source") and ty == 7:
+                v = struct.unpack("<I", val)[0]
+                if v != RAW:
+                    val = struct.pack("<I", perm[v])
+        out_props.append((nm.encode(), ty, val))
+    new_graph = [None] * n
+    for old, node in enumerate(graph):
+        node = list(node)
+        for pos in SOURCE_POS.get(node[0], []):
+            if node[pos] != RAW:
+                node[pos] = perm[node[pos]]
+        new_graph[perm[old]] = tuple(node)
+    return out_props, new_graph
 
 
 # largest absolute value among the intermediate results (node values, polynomial terms) of the last eval_graph call: binary64
@@ -138,13 +173,28 @@ def eval_graph(graph, raw, scalers=None, int_range=None):
     """independent evaluation of the dataflow graph in exact rationals (the C13 oracle).
     int_range = (lo, hi) of the raw dtype when it is an integer type: Add/Subtract/AdvancedAPI of integer-typed inputs stay
     integer-typed in NumPy; if such a result leaves the range the case is reported through `Wraps`."""
-    vals = []
-    is_int = []
     global LAST_MAGNITUDE
     LAST_MAGNITUDE = Fraction(0)
-    for node in graph:
-        if vals:
-            LAST_MAGNITUDE = max(LAST_MAGNITUDE, abs(vals[-1]))
+    # evaluation order: every scale after the scales it reads (indices need not be increasing)
+    order, seen = [], set()
+
+    def visit(i, depth=0):
+        if i in seen or depth > len(graph):
+            return
+        seen.add(i)
+        for pos in SOURCE_POS.get(graph[i][0], []):
+            if graph[i][pos] != RAW:
+                visit(graph[i][pos], depth + 1)
+        order.append(i)
+    for i in range(len(graph)):
+        visit(i)
+    vals = [None] * len(graph)
+    is_int = [None] * len(graph)
+    for idx in order:
+        node = graph[idx]
+        done = [v for v in vals if v is not None]
+        if done:
+            LAST_MAGNITUDE = max([LAST_MAGNITUDE] + [abs(v) for v in done])
 
         def inp(s):
             return Fraction(raw) if s == RAW else vals[s]
@@ -153,47 +203,47 @@ def eval_graph(graph, raw, scalers=None, int_range=None):
             return (int_range is not None) if s == RAW else is_int[s]
         k = node[0]
         if k == "daqmx":
-            vals.append(Fraction(scalers[node[1]]))
-            is_int.append(int_range is not None)
+            vals[idx] = (Fraction(scalers[node[1]]))
+            is_int[idx] = (int_range is not None)
             continue
         if k in ("add", "subtract"):
-            is_int.append(inp_int(node[1]) and inp_int(node[2]))
+            is_int[idx] = (inp_int(node[1]) and inp_int(node[2]))
         elif k == "noop":
-            is_int.append(inp_int(node[1]))
+            is_int[idx] = (inp_int(node[1]))
         else:
-            is_int.append(False)
+            is_int[idx] = (False)
         if False:
             pass
         elif k == "linear":
-            vals.append(inp(node[3]) * Fraction(node[1]) + Fraction(node[2]))
+            vals[idx] = (inp(node[3]) * Fraction(node[1]) + Fraction(node[2]))
         elif k == "polynomial":
             x = inp(node[2])
             terms = [Fraction(c) * x ** q for q, c in enumerate(node[1])]
             LAST_MAGNITUDE = max([LAST_MAGNITUDE] + [abs(t) for t in terms])
-            vals.append(sum(terms))
+            vals[idx] = (sum(terms))
         elif k == "table":
             xs, ys = node[1], node[2]
             if xs[0] > xs[-1]:
                 xs, ys = xs[::-1], ys[::-1]
             x = inp(node[3])
             if x <= xs[0]:
-                vals.append(Fraction(ys[0]))
+                vals[idx] = (Fraction(ys[0]))
             elif x >= xs[-1]:
-                vals.append(Fraction(ys[-1]))
+                vals[idx] = (Fraction(ys[-1]))
             else:
                 j = max(q for q in range(len(xs) - 1) if xs[q] <= x)
-                vals.append(Fraction(ys[j]) + (Fraction(ys[j + 1]) - Fraction(ys[j])) / (Fraction(xs[j + 1]) - Fraction(xs[j])) * (x - Fraction(xs[j])))
+                vals[idx] = (Fraction(ys[j]) + (Fraction(ys[j + 1]) - Fraction(ys[j])) / (Fraction(xs[j + 1]) - Fraction(xs[j])) * (x - Fraction(xs[j])))
         elif k == "add":
-            vals.append(inp(node[1]) + inp(node[2]))
+            vals[idx] = (inp(node[1]) + inp(node[2]))
         elif k == "subtract":
-            vals.append(inp(node[2]) - inp(node[1]))
+            vals[idx] = (inp(node[2]) - inp(node[1]))
         elif k == "noop":
-            vals.append(inp(node[1]))
+            vals[idx] = (inp(node[1]))
         else:
             raise ValueError(k)
-        if is_int[-1] and not (int_range[0] <= vals[-1] <= int_range[1]):
+        if is_int[idx] and not (int_range[0] <= vals[idx] <= int_range[1]):
             raise Wraps()
-    return vals[-1]
+    return vals[len(graph) - 1]
 
 
 def prop_token(p):
